@@ -1373,3 +1373,43 @@ Lemma repaired_rule_delivers_tick :
   rec_ticks 0 2 (run_nest_rule true boom_ident_case) = [(1, 101); (3, 103); (4, 104)]
   /\ rec_ticks 0 3 (run_nest_rule true boom_ident_case) = [(2, 107)].
 Proof. vm_compute. split; reflexivity. Qed.
+
+(* ---- the repaired clamp: a (nested) schedule request never leaves a slot of a child graph at a time before the
+   ROOT's current time (the engine's time) - whatever clocks lie between, however stale ---- *)
+Lemma sched_local_slot_cases g i when w :
+  slot_at i (gat g (sched_local g i when w)) = when \/ slot_at i (gat g (sched_local g i when w)) = slot_at i (gat g w).
+Proof.
+  unfold sched_local; cbv zeta. destruct (when <? g_now (gat g w)); [right; reflexivity|].
+  destruct (_ || _); [|right; reflexivity].
+  destruct (lt_dec g (length (w_gs w))).
+  - rewrite gat_upd_same; auto. unfold slot_at, g_set_sched, set_nth; simpl.
+    destruct (lt_dec i (length (g_slots (gat g w)))).
+    + left. apply nth_update_same; auto.
+    + right. rewrite update_oob by lia. reflexivity.
+  - right. unfold gat, upd_g; simpl. rewrite update_oob by lia. reflexivity.
+Qed.
+
+Lemma nested_schedule_not_before_root T (HT : parents_lt T) d g i when w pg pn :
+  gc_parent (gcfg_at T g) = Some (pg, pn) ->
+  let w' := sched_at (S d) T g i when w in
+  slot_at i (gat g w') = slot_at i (gat g w) \/ now_of 0 w <= slot_at i (gat g w').
+Proof.
+  intros Hp. cbn [sched_at]. rewrite Hp.
+  set (when' := Z.max (Z.max when (now_of pg w)) (now_of 0 w)).
+  assert (Hlt : (pg < g)%nat) by apply (HT _ _ _ Hp).
+  destruct (sched_local_slot_cases g i when' w) as [E|E].
+  - right.
+    assert (E' : forall x, gat g x = gat g (sched_local g i when' w) -> now_of 0 w <= slot_at i (gat g x))
+      by (intros x Hx; rewrite Hx, E; unfold when'; lia).
+    destruct (negb (ok _)); [apply E'; reflexivity|].
+    match goal with |- _ <= slot_at i (gat g (if ?b then sched_at d T pg pn ?wh ?w2 else _)) =>
+      assert (S2 : slot_at i (gat g w2) = when') end.
+    { destruct (_ && _); auto. unfold slot_at in *. rewrite (gat_upd_proj g_slots); auto. }
+    destruct (g_started _ && negb _); [rewrite sched_at_above; auto|]; rewrite S2; unfold when'; lia.
+  - left.
+    destruct (negb (ok _)); [exact E|].
+    match goal with |- slot_at i (gat g (if ?b then sched_at d T pg pn ?wh ?w2 else _)) = _ =>
+      assert (S2 : slot_at i (gat g w2) = slot_at i (gat g w)) end.
+    { destruct (_ && _); auto. unfold slot_at in *. rewrite (gat_upd_proj g_slots); auto. }
+    destruct (g_started _ && negb _); [rewrite sched_at_above; auto|]; exact S2.
+Qed.
